@@ -3,8 +3,12 @@
 
    Vocabulary (all from Model/Schema.v, Model/Resolve.v):
      S            the schema: long names of the tag section in registration order ("A/B/C", "A/B/#")
-     foldc        case folding of one code point; the theorems need only that it keeps '/' and '#' apart
-                  from everything else (ascii_lower, used by the correspondence run, satisfies this)
+     foldc        case folding of one code point, as a string (str.casefold maps some code points to several);
+                  the theorems need only that it erases nothing and keeps '/' and '#' apart from everything
+                  else; CPython's table (Gen/FoldTable.v, used by the correspondence run) satisfies this
+     fx           which repairs of hed_schema.py the model follows: [repaired] = the code as it is now
+                  (fix_index: indexes refer to the text as written; fix_hash: the walk never steps onto a
+                  '#' placeholder); the unrepaired behaviour is kept for the record at the end
      WFschema     boolean well-formedness: names non-empty, no trailing '/', no ':'; every slash-prefix of a
                   name is a name; '#' only as the last component; folded short names pairwise different
      build_table  HedSchemaTagSection after loading; find_tag_entry / hedtag_init: HedSchema.find_tag_entry
@@ -12,13 +16,14 @@
 From Coq Require Import List NArith.
 From HV Require Import Base.Res Base.Str Base.SchemaData Model.Schema Model.Resolve.
 From HV Require Import Proofs.SchemaProofs Proofs.ResolveProofs Proofs.ResolveExamples.
-From HV Require Gen.Schema_8_0_0 Gen.SchemaWF_8_0_0 Gen.Schema_8_1_0 Gen.SchemaWF_8_1_0 Gen.Schema_8_2_0 Gen.SchemaWF_8_2_0 Gen.Schema_8_3_0 Gen.SchemaWF_8_3_0 Gen.Schema_score_1_0_0 Gen.SchemaWF_score_1_0_0 Gen.Schema_score_1_1_0 Gen.SchemaWF_score_1_1_0 Gen.Schema_score_2_0_0 Gen.SchemaWF_score_2_0_0 Gen.Schema_testlib_1_0_2 Gen.SchemaWF_testlib_1_0_2 Gen.Schema_testlib_2_0_0 Gen.SchemaWF_testlib_2_0_0 Gen.Schema_testlib_2_1_0 Gen.SchemaWF_testlib_2_1_0 Gen.Schema_testlib_3_0_0 Gen.SchemaWF_testlib_3_0_0.
+From HV Require Gen.FoldTable Gen.Schema_8_0_0 Gen.SchemaWF_8_0_0 Gen.Schema_8_1_0 Gen.SchemaWF_8_1_0 Gen.Schema_8_2_0 Gen.SchemaWF_8_2_0 Gen.Schema_8_3_0 Gen.SchemaWF_8_3_0 Gen.Schema_score_1_0_0 Gen.SchemaWF_score_1_0_0 Gen.Schema_score_1_1_0 Gen.SchemaWF_score_1_1_0 Gen.Schema_score_2_0_0 Gen.SchemaWF_score_2_0_0 Gen.Schema_testlib_1_0_2 Gen.SchemaWF_testlib_1_0_2 Gen.Schema_testlib_2_0_0 Gen.SchemaWF_testlib_2_0_0 Gen.Schema_testlib_2_1_0 Gen.SchemaWF_testlib_2_1_0 Gen.Schema_testlib_3_0_0 Gen.SchemaWF_testlib_3_0_0.
 Import ListNotations.
 
 Section C03.
-  Variable foldc : N -> N.
-  Hypothesis fold_slash : forall c, N.eqb (foldc c) ch_slash = N.eqb c ch_slash.
-  Hypothesis fold_hash : forall c, N.eqb (foldc c) ch_hash = N.eqb c ch_hash.
+  Variable foldc : N -> str.
+  Hypothesis fold_slash : foldc ch_slash = [ch_slash] /\ forall c, In ch_slash (foldc c) -> c = ch_slash.
+  Hypothesis fold_hash : foldc ch_hash = [ch_hash] /\ (forall c, foldc c = [ch_hash] -> c = ch_hash) /\
+                         forall c, foldc c <> [].
 
   (* Loading a well-formed schema never raises and records no duplicate name. *)
   Theorem C03_load_total : forall S, WFschema foldc S = true ->
@@ -34,55 +39,89 @@ Section C03.
   Proof. exact (table_exact foldc fold_slash fold_hash). Qed.
 
   (* suffix_resolves: every registered spelling f of a node n (short form, partial path, full path), in any
-     letter case p, behind any namespace prefix ns, is identified as n; nothing is left over (for the
-     placeholder child itself the code keeps "/#"). *)
+     letter case p (any text with the same case folding), behind any namespace prefix ns, is identified as n;
+     nothing is left over (for the placeholder child itself the code keeps "/#").  Holds before and after the
+     repairs. *)
   Theorem C03_suffix_resolves : forall S, WFschema foldc S = true -> forall T, build_table foldc S = Ok T ->
-    forall n k forms f e p ns,
+    forall fx n k forms f e p ns,
       In n S -> get_tag_forms n = Ok (k, forms) -> In f forms -> create_tag_entry n = Ok e ->
       fold foldc p = fold foldc f ->
-      find_tag_entry foldc T ns (ns ++ p) ns = Found e (if is_value n then s_slash_hash else []).
+      find_tag_entry foldc fx T ns (ns ++ p) ns = Found e (if is_value n then s_slash_hash else []).
   Proof. exact (suffix_resolves foldc fold_slash fold_hash). Qed.
 
   (* the same at the level of HedTag, where the namespace is read off the text *)
   Theorem C03_hedtag_suffix : forall S, WFschema foldc S = true -> forall T, build_table foldc S = Ok T ->
-    forall n k forms f e p sns,
+    forall fx n k forms f e p sns,
       In n S -> get_tag_forms n = Ok (k, forms) -> In f forms -> create_tag_entry n = Ok e ->
       fold foldc p = fold foldc f -> get_schema_namespace (sns ++ p) = sns ->
-      hedtag_init foldc T sns (sns ++ p)
+      hedtag_init foldc fx T sns (sns ++ p)
       = mkHedTag (sns ++ p) sns (Some e) (if is_value n then s_slash_hash else []).
   Proof. exact (hedtag_suffix foldc fold_slash fold_hash). Qed.
 
-  (* remainder_verbatim: after a spelling p of node n, text r that does not continue to a deeper registered
-     form (no_longer_form) is carried over verbatim as "/r", on the '#' child of n when n has one (then
-     any r is accepted), otherwise on n provided no term of r is itself a tag (else the code reports
+  (* remainder_verbatim (the code as it is now, for EVERY admissible folding -- also those that change the
+     length of the text): after a spelling p of node n, text r that does not continue to a deeper registered
+     form (no_longer_form) is carried over verbatim as "/r", on the '#' child of n when n has one (then any r
+     is accepted), otherwise on n provided no term of r is itself a tag (else the code reports
      INVALID_PARENT_NODE).  The '#' child has the same long and short name as n. *)
   Theorem C03_remainder_verbatim : forall S, WFschema foldc S = true -> forall T, build_table foldc S = Ok T ->
+    forall fx, fix_index fx = true ->
     forall n k forms f e p r ns,
       In n S -> is_value n = false ->
       get_tag_forms n = Ok (k, forms) -> In f forms -> create_tag_entry n = Ok e ->
       fold foldc p = fold foldc f ->
       no_longer_form foldc T p r = true ->
       (takes_value_child foldc T e <> None \/ ext_terms_free foldc T r = true) ->
-      find_tag_entry foldc T ns (ns ++ p ++ ch_slash :: r) ns
+      find_tag_entry foldc fx T ns (ns ++ p ++ ch_slash :: r) ns
       = Found (match takes_value_child foldc T e with Some v => v | None => e end) (ch_slash :: r)
       /\ (forall v, takes_value_child foldc T e = Some v ->
             create_tag_entry (n ++ s_slash_hash) = Ok v /\ In (n ++ s_slash_hash) S /\
             e_long v = e_long e /\ e_short v = e_short e).
   Proof. exact (remainder_verbatim foldc fold_slash fold_hash). Qed.
 
-  (* long_short_inverse, for EVERY text t that does not contain "/#/" (identified or not, any namespace):
-     long(short t) = long t, short(long t) = short t, both idempotent, and all three texts are identified
-     with the same entry and the same value/extension. *)
+  (* long_short_inverse, the FULL statement, for the code as it is now: for EVERY text t (identified or not,
+     any namespace, any admissible folding): long(short t) = long t, short(long t) = short t, both idempotent,
+     and all three texts are identified with the same entry and the same value/extension. *)
   Theorem C03_long_short_inverse : forall S, WFschema foldc S = true -> forall T, build_table foldc S = Ok T ->
-    forall sns t, ~ has_hash_mid t ->
-      let h := hedtag_init foldc T sns t in
-      let hs := hedtag_init foldc T sns (short_tag h) in
-      let hl := hedtag_init foldc T sns (long_tag h) in
+    forall sns t,
+      let h := hedtag_init foldc repaired T sns t in
+      let hs := hedtag_init foldc repaired T sns (short_tag h) in
+      let hl := hedtag_init foldc repaired T sns (long_tag h) in
       long_tag hs = long_tag h /\ short_tag hl = short_tag h /\
       short_tag hs = short_tag h /\ long_tag hl = long_tag h /\
       ht_entry hs = ht_entry h /\ ht_entry hl = ht_entry h /\
       ht_ext hs = ht_ext h /\ ht_ext hl = ht_ext h.
-  Proof. exact (long_short_inverse foldc fold_slash fold_hash). Qed.
+  Proof.
+    exact (fun S HWF T HB sns t =>
+             long_short_inverse foldc fold_slash fold_hash S HWF T HB repaired eq_refl sns t
+               (fun H : fix_hash repaired = false => False_ind _ (Bool.diff_true_false H))).
+  Qed.
+
+  (* ---- record of the repaired defects: what held of the code BEFORE the two fix: commits ---- *)
+
+  (* before the '#' repair (C03-F2) the round trip held only for texts without "/#/" *)
+  Theorem C03_long_short_inverse_before_hash_fix :
+    forall S, WFschema foldc S = true -> forall T, build_table foldc S = Ok T ->
+    forall sns t, ~ has_hash_mid t ->
+      let fx := mkFixes true false in
+      let h := hedtag_init foldc fx T sns t in
+      let hs := hedtag_init foldc fx T sns (short_tag h) in
+      let hl := hedtag_init foldc fx T sns (long_tag h) in
+      long_tag hs = long_tag h /\ short_tag hl = short_tag h /\
+      short_tag hs = short_tag h /\ long_tag hl = long_tag h /\
+      ht_entry hs = ht_entry h /\ ht_entry hl = ht_entry h /\
+      ht_ext hs = ht_ext h /\ ht_ext hl = ht_ext h.
+  Proof.
+    exact (fun S HWF T HB sns t NH =>
+             long_short_inverse foldc fold_slash fold_hash S HWF T HB (mkFixes true false) eq_refl sns t
+               (fun _ => NH)).
+  Qed.
+
+  (* before the index repair (C03-F1) the code agreed with the repaired code exactly for foldings that map
+     every code point to ONE code point; all theorems above then transfer *)
+  Theorem C03_before_index_fix_same_on_simple_foldings :
+    (forall c, length (foldc c) = 1) ->
+    forall h T sns t, hedtag_init foldc (mkFixes false h) T sns t = hedtag_init foldc (mkFixes true h) T sns t.
+  Proof. exact (unrepaired_index_same_hedtag foldc fold_slash). Qed.
 End C03.
 Print Assumptions C03_load_total.
 Print Assumptions C03_table_exact.
@@ -90,55 +129,77 @@ Print Assumptions C03_suffix_resolves.
 Print Assumptions C03_hedtag_suffix.
 Print Assumptions C03_remainder_verbatim.
 Print Assumptions C03_long_short_inverse.
+Print Assumptions C03_long_short_inverse_before_hash_fix.
+Print Assumptions C03_before_index_fix_same_on_simple_foldings.
 
-(* The full statement "for ALL texts t" is FALSE of the code: without the "/#/" restriction the round trip
-   fails (schema A, A/# and t = "A/#/#/x": short t = "A/#/x" but short(short t) = "A/x").  Replayed on the
-   implementation as finding C03-F2 (Duration/#/#/more). *)
-Theorem C03_long_short_inverse_refuted :
+(* REPAIRED DEFECT C03-F2: without the '#' repair the unrestricted round trip was FALSE
+   (schema A, A/# and t = "A/#/#/x": short t = "A/#/x" but short(short t) = "A/x"). *)
+Theorem C03_long_short_inverse_refuted_before_hash_fix :
   exists (S : list str) (sns t : str),
-    WFschema ascii_lower S = true /\
-    match build_table ascii_lower S with
+    WFschema ascii_fold S = true /\
+    match build_table ascii_fold S with
     | Ok T =>
-        let h := hedtag_init ascii_lower T sns t in
-        let hs := hedtag_init ascii_lower T sns (short_tag h) in
+        let h := hedtag_init ascii_fold (mkFixes true false) T sns t in
+        let hs := hedtag_init ascii_fold (mkFixes true false) T sns (short_tag h) in
         short_tag hs <> short_tag h /\ long_tag hs <> long_tag h
     | Exn _ => False
     end.
-Proof. exact long_short_unrestricted_refuted. Qed.
-Print Assumptions C03_long_short_inverse_refuted.
+Proof. exact long_short_unrestricted_refuted_before_fix. Qed.
+Print Assumptions C03_long_short_inverse_refuted_before_hash_fix.
 
-(* the folding used by the correspondence run satisfies the two laws *)
-Theorem C03_ascii_lower_laws :
-  (forall c, N.eqb (ascii_lower c) ch_slash = N.eqb c ch_slash) /\
-  (forall c, N.eqb (ascii_lower c) ch_hash = N.eqb c ch_hash).
-Proof. exact (conj ascii_lower_slash ascii_lower_hash). Qed.
-Print Assumptions C03_ascii_lower_laws.
+(* REPAIRED DEFECT C03-F1: without the index repair a folding that changes the length of the text broke
+   "carried over verbatim" (schema Press, U+00DF -> "ss", t = "Preß/abc": short form "Pressabc";
+   with the repair "Press/abc"). *)
+Theorem C03_remainder_verbatim_refuted_before_index_fix :
+  exists (tbl : list (N * str)) (S : list str) (t : str),
+    table_ok tbl = true /\ WFschema (table_fold tbl) S = true /\
+    match build_table (table_fold tbl) S with
+    | Ok T =>
+        short_tag (hedtag_init (table_fold tbl) (mkFixes false true) T [] t) = f1_bad /\
+        short_tag (hedtag_init (table_fold tbl) (mkFixes true true) T [] t) = f1_good
+    | Exn _ => False
+    end.
+Proof. exact remainder_not_verbatim_before_fix. Qed.
+Print Assumptions C03_remainder_verbatim_refuted_before_index_fix.
+
+(* every folding given by a table without empty entries, '/' or '#' satisfies the two hypotheses;
+   CPython's table (translator T6, every code point) is such a table *)
+Theorem C03_table_fold_laws : forall tbl, table_ok tbl = true ->
+  (table_fold tbl ch_slash = [ch_slash] /\ forall c, In ch_slash (table_fold tbl c) -> c = ch_slash) /\
+  (table_fold tbl ch_hash = [ch_hash] /\ (forall c, table_fold tbl c = [ch_hash] -> c = ch_hash) /\
+   forall c, table_fold tbl c <> []).
+Proof. exact (fun tbl OK => conj (table_fold_slash tbl OK) (table_fold_hash tbl OK)). Qed.
+Print Assumptions C03_table_fold_laws.
+
+Example C03_casefold_table_ok : table_ok FoldTable.casefold_table = true.
+Proof. exact casefold_table_ok. Qed.
 
 (* the hypotheses are met by every bundled vocabulary (kernel evaluation on the T4 terms) *)
-Example C03_wf_8_0_0 : WFschema ascii_lower (map td_long Schema_8_0_0.tags) = true.
+Example C03_wf_8_0_0 : WFschema FoldTable.py_fold (map td_long Schema_8_0_0.tags) = true.
 Proof. exact SchemaWF_8_0_0.wf. Qed.
-Example C03_wf_8_1_0 : WFschema ascii_lower (map td_long Schema_8_1_0.tags) = true.
+Example C03_wf_8_1_0 : WFschema FoldTable.py_fold (map td_long Schema_8_1_0.tags) = true.
 Proof. exact SchemaWF_8_1_0.wf. Qed.
-Example C03_wf_8_2_0 : WFschema ascii_lower (map td_long Schema_8_2_0.tags) = true.
+Example C03_wf_8_2_0 : WFschema FoldTable.py_fold (map td_long Schema_8_2_0.tags) = true.
 Proof. exact SchemaWF_8_2_0.wf. Qed.
-Example C03_wf_8_3_0 : WFschema ascii_lower (map td_long Schema_8_3_0.tags) = true.
+Example C03_wf_8_3_0 : WFschema FoldTable.py_fold (map td_long Schema_8_3_0.tags) = true.
 Proof. exact SchemaWF_8_3_0.wf. Qed.
-Example C03_wf_score_1_0_0 : WFschema ascii_lower (map td_long Schema_score_1_0_0.tags) = true.
+Example C03_wf_score_1_0_0 : WFschema FoldTable.py_fold (map td_long Schema_score_1_0_0.tags) = true.
 Proof. exact SchemaWF_score_1_0_0.wf. Qed.
-Example C03_wf_score_1_1_0 : WFschema ascii_lower (map td_long Schema_score_1_1_0.tags) = true.
+Example C03_wf_score_1_1_0 : WFschema FoldTable.py_fold (map td_long Schema_score_1_1_0.tags) = true.
 Proof. exact SchemaWF_score_1_1_0.wf. Qed.
-Example C03_wf_score_2_0_0 : WFschema ascii_lower (map td_long Schema_score_2_0_0.tags) = true.
+Example C03_wf_score_2_0_0 : WFschema FoldTable.py_fold (map td_long Schema_score_2_0_0.tags) = true.
 Proof. exact SchemaWF_score_2_0_0.wf. Qed.
-Example C03_wf_testlib_1_0_2 : WFschema ascii_lower (map td_long Schema_testlib_1_0_2.tags) = true.
+Example C03_wf_testlib_1_0_2 : WFschema FoldTable.py_fold (map td_long Schema_testlib_1_0_2.tags) = true.
 Proof. exact SchemaWF_testlib_1_0_2.wf. Qed.
-Example C03_wf_testlib_2_0_0 : WFschema ascii_lower (map td_long Schema_testlib_2_0_0.tags) = true.
+Example C03_wf_testlib_2_0_0 : WFschema FoldTable.py_fold (map td_long Schema_testlib_2_0_0.tags) = true.
 Proof. exact SchemaWF_testlib_2_0_0.wf. Qed.
-Example C03_wf_testlib_2_1_0 : WFschema ascii_lower (map td_long Schema_testlib_2_1_0.tags) = true.
+Example C03_wf_testlib_2_1_0 : WFschema FoldTable.py_fold (map td_long Schema_testlib_2_1_0.tags) = true.
 Proof. exact SchemaWF_testlib_2_1_0.wf. Qed.
-Example C03_wf_testlib_3_0_0 : WFschema ascii_lower (map td_long Schema_testlib_3_0_0.tags) = true.
+Example C03_wf_testlib_3_0_0 : WFschema FoldTable.py_fold (map td_long Schema_testlib_3_0_0.tags) = true.
 Proof. exact SchemaWF_testlib_3_0_0.wf. Qed.
 
 (* non-vacuity: "ts:temporal-VALUE/duration/3 ms" against 8.3.0 loaded under namespace "ts:" is identified
-   with .../Duration/#, short "ts:Duration/3 ms", long "ts:Property/.../Duration/3 ms", extension "3 ms" *)
+   with .../Duration/#, short "ts:Duration/3 ms", long "ts:Property/.../Duration/3 ms", extension "3 ms";
+   the two old witnesses now give "Press/abc" and "Duration/#/#/more" *)
 Example C03_nonvacuous : ex_check = true.
 Proof. exact ex_resolution. Qed.
